@@ -38,6 +38,7 @@ import (
 	"github.com/meshplus/bitxhub-model/constant"
 	"github.com/meshplus/bitxhub-model/pb"
 	"github.com/meshplus/bitxhub/internal/executor/contracts"
+	"github.com/meshplus/bitxhub/internal/repo"
 	"github.com/meshplus/bitxhub/verifharness/hx"
 	"github.com/sirupsen/logrus"
 )
@@ -71,6 +72,11 @@ type world struct {
 	rolesOf  map[int]bool
 	ver      int
 	bxh      string
+	batching   bool
+	batch      []pb.Transaction
+	batchLocal []bool
+	queued     chan bool
+	release    chan bool
 }
 
 func ruleAddr(r int) string {
@@ -118,19 +124,34 @@ func (w *world) key(name string) crypto.PrivateKey {
 
 func (w *world) addr(name string) string { return hx.Addr(w.key(name)).String() }
 
-func (w *world) exec(from string, to *types.Address, method string, args ...*pb.Arg) *pb.Receipt {
-	n := w.nonce[from]
-	w.nonce[from] = n + 1
-	tx := hx.BvmTx(w.key(from), n, to, method, args...)
-	ev := w.c.ExecBlock([]pb.Transaction{tx}, true, 20*time.Second)
-	if ev == nil {
-		return nil
+// submit executes one transaction in a block of its own - or, while a packed block is being assembled
+// (w.batching), hands it to the assembler and waits until the whole block has been executed.  Every
+// operation runs in its own goroutine then; only one of them is ever runnable.
+func (w *world) submit(tx pb.Transaction, local bool) *pb.Receipt {
+	if w.batching {
+		w.batch = append(w.batch, tx)
+		w.batchLocal = append(w.batchLocal, local)
+		rel := w.release
+		w.queued <- true // tell the assembler this operation has queued its transaction
+		<-rel            // ... and wait for the block (every operation has a release channel of its own)
+	} else {
+		block := w.c.ExecBlock([]pb.Transaction{tx}, local, 20*time.Second)
+		if block == nil {
+			return nil
+		}
 	}
 	r, err := w.c.Ledger.GetReceipt(tx.GetHash())
 	if err != nil {
 		return nil
 	}
 	return r
+}
+
+func (w *world) exec(from string, to *types.Address, method string, args ...*pb.Arg) *pb.Receipt {
+	n := w.nonce[from]
+	w.nonce[from] = n + 1
+	tx := hx.BvmTx(w.key(from), n, to, method, args...)
+	return w.submit(tx, true)
 }
 
 type govRet struct {
@@ -332,7 +353,16 @@ func (w *world) doOp(op []json.RawMessage) (ok bool, out int, errText string) {
 		}
 		last := ""
 		for g := 0; g < len(w.c.Admins); g++ {
-			r := w.exec(fmt.Sprintf("gov%d", g), gv, "Vote", pb.String(id), pb.String(ballot), pb.String("r"))
+			final := w.voteIsFinal(id, fmt.Sprintf("gov%d", g), approve)
+			var r *pb.Receipt
+			if w.batching && !final {
+				// only the deciding vote belongs to the packed block
+				w.batching = false
+				r = w.exec(fmt.Sprintf("gov%d", g), gv, "Vote", pb.String(id), pb.String(ballot), pb.String("r"))
+				w.batching = true
+			} else {
+				r = w.exec(fmt.Sprintf("gov%d", g), gv, "Vote", pb.String(id), pb.String(ballot), pb.String("r"))
+			}
 			if r == nil {
 				return false, 9, "no receipt"
 			}
@@ -376,12 +406,8 @@ func (w *world) doOp(op []json.RawMessage) (ok bool, out int, errText string) {
 		n := w.nonce["out"]
 		w.nonce["out"] = n + 1
 		tx := hx.IBTPTx(w.key("out"), n, ib, proof)
-		ev := w.c.ExecBlock([]pb.Transaction{tx}, false, 20*time.Second)
-		if ev == nil {
-			return false, 4, "no block"
-		}
-		r, err := w.c.Ledger.GetReceipt(tx.GetHash())
-		if err != nil {
+		r := w.submit(tx, false)
+		if r == nil {
 			return false, 4, "no receipt"
 		}
 		ret := string(r.Ret)
@@ -411,6 +437,30 @@ func (w *world) doOp(op []json.RawMessage) (ok bool, out int, errText string) {
 		return true, 9, ""
 	}
 	return false, 9, "unknown op"
+}
+
+// voteIsFinal predicts whether the ballot of this admin closes the proposal (repo.MakeStrategyDecision on the
+// proposal as stored plus this ballot); an admin who voted already does not count.
+func (w *world) voteIsFinal(id, who string, approve bool) bool {
+	ok, ret := w.c.View(constant.GovernanceContractAddr.Address(), "GetProposal", pb.String(id))
+	if !ok {
+		return true
+	}
+	var p contracts.Proposal
+	if json.Unmarshal(ret, &p) != nil {
+		return true
+	}
+	if _, voted := p.BallotMap[w.addr(who)]; voted {
+		return false
+	}
+	a, r := p.ApproveNum, p.AgainstNum
+	if approve {
+		a++
+	} else {
+		r++
+	}
+	end, _, err := repo.MakeStrategyDecision(p.StrategyExpression, a, r, p.InitialElectorateNum, p.AvailableElectorateNum)
+	return err != nil || end
 }
 
 // nthOpen: index of the k-th newest proposal that is proposed (or proposed/paused), -1 if none
@@ -578,21 +628,79 @@ func runHistory(line []byte) (interface{}, error) {
 	}
 	c.ExecBlock(nil, true, 20*time.Second)
 	steps := []stepOut{}
-	for _, op := range in.Ops {
-		var o stepOut
-		func() {
-			defer func() {
-				if e := recover(); e != nil {
-					o.Ok, o.Out, o.Err = false, 7, fmt.Sprintf("driver panic: %v", e)
-				}
-			}()
-			o.Ok, o.Out, o.Err = w.doOp(op)
+	runOne := func(op []json.RawMessage) (o stepOut) {
+		defer func() {
+			if e := recover(); e != nil {
+				o.Ok, o.Out, o.Err = false, 7, fmt.Sprintf("driver panic: %v", e)
+			}
 		}()
-		if len(o.Err) > 160 {
-			o.Err = o.Err[:160]
+		o.Ok, o.Out, o.Err = w.doOp(op)
+		return
+	}
+	for i := 0; i < len(in.Ops); i++ {
+		op := in.Ops[i]
+		if num(op[0]) != 14 {
+			o := runOne(op)
+			if len(o.Err) > 160 {
+				o.Err = o.Err[:160]
+			}
+			w.observe(&o)
+			steps = append(steps, o)
+			continue
 		}
-		w.observe(&o)
-		steps = append(steps, o)
+		// [14, n]: the next n operations share one block.  Each runs in its own goroutine up to the point where it
+		// submits its transaction; then the block is executed and the operations finish in order.
+		n := num(op[1])
+		if i+n >= len(in.Ops) {
+			n = len(in.Ops) - 1 - i
+		}
+		ops := in.Ops[i+1 : i+1+n]
+		i += n
+		w.batching, w.batch, w.batchLocal = true, nil, nil
+		w.queued = make(chan bool)
+		rels := make([]chan bool, len(ops))
+		results := make([]chan stepOut, len(ops))
+		waiting := 0
+		outs := make([]*stepOut, len(ops))
+		for k, p := range ops {
+			results[k] = make(chan stepOut, 1)
+			rels[k] = make(chan bool, 1)
+			w.release = rels[k]
+			go func(k int, p []json.RawMessage) { results[k] <- runOne(p) }(k, p)
+			select {
+			case <-w.queued:
+				waiting++
+			case o := <-results[k]: // finished without submitting anything (refused before any transaction)
+				outs[k] = &o
+			}
+		}
+		if len(w.batch) > 0 {
+			h := w.c.Height() + 1
+			_ = h
+			allLocal := true
+			for _, l := range w.batchLocal {
+				allLocal = allLocal && l
+			}
+			w.c.ExecBlock(w.batch, allLocal, 30*time.Second)
+		}
+		w.batching = false
+		for k := range ops {
+			if outs[k] == nil {
+				rels[k] <- true
+				o := <-results[k]
+				outs[k] = &o
+			}
+		}
+		var last stepOut
+		w.observe(&last)
+		for k := range ops {
+			o := *outs[k]
+			if len(o.Err) > 160 {
+				o.Err = o.Err[:160]
+			}
+			o.Chains, o.Svcs, o.Rules, o.Roles, o.Props, o.Cache = last.Chains, last.Svcs, last.Rules, last.Roles, last.Props, last.Cache
+			steps = append(steps, o)
+		}
 	}
 	return map[string]interface{}{"setup": "ok", "steps": steps}, nil
 }
